@@ -68,6 +68,10 @@ def stress_programs(rng, tier):
         if name not in S.OPERATORS and not name.endswith("=") and ok == []:
             g += ["vfr = %s" % S.RECV[cls], "vfq = vfr&.%s" % name]
         g += ["vfr = %s" % S.RECV[cls], S.call_src("vfr", name, ok) + " = \"s\""]
+        if name not in S.OPERATORS:
+            # element / attribute assignment and compound assignment on the call's result
+            g += ["vfr = %s" % S.RECV[cls], S.call_src("vfr", name, ok) + "[0] = \"s\"",
+                  "vfr = %s" % S.RECV[cls], "vfq = " + S.call_src("vfr", name, ok), "vfq ||= 1.5", "vfq += 1"]
         for a in bad:
             g += ["vfr = %s" % S.RECV[cls], S.call_src("vfr", name, a)]
         groups.append(("stress:%s#%s" % (cls, name), g))
